@@ -171,7 +171,7 @@ def spaces(tier, seed, all_strata=False):
             "in %d interpreters with PYTHONHASHSEED 0..%d: identical log, value and error class" % (n, n - 1), "%d seeds" % n),
         _sp("c15_orders", "run_orders", lambda: _order_cases(5 if tier == "quick" else 1),
             "all 24 permutations of 4-program batches from a 12-program pool in one process", "24 x C(12,4)"),
-        _sp("c15_warm", "run_warm", _warm_cases, "fresh process vs after 1000 unrelated evaluations with a shifted virtual clock", "4 slices"),
+        _sp("c15_warm", "run_warm", _warm_cases, "fresh process vs after 1000 unrelated evaluations, 100 of which fail in 29 different ways (deep joins, cycles, limits, throws through natives, syntax errors, regex errors), with a shifted virtual clock", "4 slices"),
     ]
     if all_strata and tier != "thorough":
         out.append(_sp("c15_seeds_64", "run_seeds", lambda: _seed_cases(64), "64 seeds", "64 seeds"))
